@@ -1,8 +1,40 @@
 import Driver.Codec
+import LopdfModel.Model.Read
 namespace Lopdf.Driver.C02
 open Lopdf Lopdf.Codec
 
-/-- protocol operations of property C02: `none` = not an operation of this property. -/
-def handle (op : String) (args : List String) : Option String := none
+def showLoaded (l : Loaded) : String :=
+  "ok " ++ toString l.maxId ++ " " ++ toString l.xrefStart ++ " " ++ hexTok l.version ++ " " ++ hexTok l.binaryMark
+    ++ " " ++ showObj (.dict l.trailer) ++ " " ++ showObjects l.objects
+
+/-- `load <hex>` -> `ok <maxId> <xrefStart> <version> <mark> <trailer> <objects>` | `err` | `panic` | `ext` -/
+def handle (op : String) (args : List String) : Option String :=
+  match op with
+  | "load" =>
+    some <| match args with
+    | [h] =>
+      match bytesOfHex h with
+      | some bs =>
+        match loadDoc bs with
+        | .ok l => showLoaded l
+        | .err "ext" => "ext"
+        | .err _ => "err"
+        | .panic _ => "panic"
+      | none => "bad-op"
+    | _ => "bad-op"
+  | "load_perm" =>
+    -- load_perm <i0,i1,…> <hex>
+    some <| match args with
+    | [p, h] =>
+      match (p.splitOn ",").mapM String.toNat?, bytesOfHex h with
+      | some order, some bs =>
+        match loadDocOrd (some order) bs with
+        | .ok l => showLoaded l
+        | .err "ext" => "ext"
+        | .err _ => "err"
+        | .panic _ => "panic"
+      | _, _ => "bad-op"
+    | _ => "bad-op"
+  | _ => none
 
 end Lopdf.Driver.C02
